@@ -31,7 +31,7 @@ RULE = (
 )
 ASSUMPTIONS = ["concurrent runs use registry-less plans or registries whose stores are all fresh (read-only runs)"]
 
-ACTIONS = ["run", "run", "failrun", "failrun", "dry", "render", "copy_mut", "orig_mut", "concurrent", "run_noreg"]
+ACTIONS = ["run", "run", "failrun", "failrun", "dry", "render", "copy_mut", "orig_mut", "concurrent", "run_noreg", "run_foreign"]
 
 
 @st.composite
@@ -153,6 +153,23 @@ def check_case(ctx, case, record=True):
                 ctx.violation(case, tag + f"a copy changed when its original was mutated: {d}")
         elif k == "concurrent":
             concurrent(ctx, case, w, act, tag)
+        elif k == "run_foreign":
+            # a registry shared with another plan: it also holds an entry for a node that is not in this plan.
+            # Whatever run makes of that (it may well refuse), the caller's registry keeps all its entries.
+            other = uberjob.Plan()
+            fnode = other.call(len, "abc")
+            r2 = w.registry.copy()
+            r2.add(fnode, world.LogicalStore(w, 998))
+            snap2 = snapshot(w.plan, r2)
+            out_obj, _ = w.output_obj(act["output"]) if act["output"] is not None else (None, None)
+            try:
+                uberjob.run(w.plan, registry=r2, output=out_obj, progress=None, max_workers=act["cfg"].get("workers"),
+                            dry_run=bool(act["cfg"].get("rseed", 0) % 2))
+            except BaseException:
+                pass
+            d = diff_snap(snap2, snapshot(w.plan, r2))
+            if d:
+                ctx.violation(case, tag + f"the caller's Plan/Registry (holding an entry of another plan) was modified: {d}")
         after = snapshot(w.plan, w.registry)
         d = diff_snap(before, after)
         if d:
